@@ -410,6 +410,9 @@ def check(chk):
     chk.sample({"scenario": short(scen[0]), "allowed_outcomes": sorted(allowed[scen[0]["id"]])})
     if traces:
         chk.sample({"validated_history": traces[0]})
+    # ---- binding 2: llgo-compiled channel programs (compiler lowering of send/recv/select/close/len/cap, real threads)
+    from . import progs
+    progs.run_chan_programs(chk, thorough, sd)
     chk.assumptions += ["all shared fields of Chan/selectOp are accessed only under their mutex, so lock/wait/signal calls are the only scheduling points",
                         "the stand-in mutex/condvar implement POSIX semantics incl. spurious wake-ups and arbitrary choice of the waiter woken by Signal",
                         "compiled code ignores ChanSend's boolean result (ssa/datastruct.go Send), so completion without panic is the observable of a send"]
